@@ -6,22 +6,26 @@ From BG Require Import C13.Model C13.Proofs.
 Import ListNotations.
 Open Scope N_scope.
 
-(* flags -> builder -> flags: parsing what was printed gives back every table-driven option *)
+(* flags -> builder -> flags: parsing what was printed gives back every table-driven option.
+   [representable rows cs o]: every row's value has a shape the flag syntax can carry, and
+   [o] respects the secondary effects of the flags it prints (a configuration with
+   derive_eq but not derive_partialeq is not reachable through the builder) *)
 Theorem roundtrip : forall rows cs o,
-  wf rows cs = true -> representable rows o = true ->
+  wf rows cs = true -> representable rows cs o = true ->
   exists o', parse rows cs (print rows o) = Some o' /\ agree_on rows o o'.
 Proof. exact Proofs.roundtrip. Qed.
 Print Assumptions roundtrip.
 
 (* ... and therefore prints to the same flag list again *)
 Theorem print_stable : forall rows cs o o',
-  wf rows cs = true -> representable rows o = true ->
+  wf rows cs = true -> representable rows cs o = true ->
   parse rows cs (print rows o) = Some o' -> print rows o' = print rows o.
 Proof. exact Proofs.print_stable. Qed.
 Print Assumptions print_stable.
 
 (* defaults are the same on both paths: no flags <-> default options *)
 Theorem defaults_agree : forall rows cs,
+  nodup_N (map p_field rows) = true ->
   parse rows cs [] = Some (defaults rows) /\ print rows (defaults rows) = [].
 Proof. exact Proofs.defaults_agree. Qed.
 Print Assumptions defaults_agree.
@@ -36,7 +40,7 @@ Print Assumptions dash_value_refuted.
 Theorem missing_flag_breaks : forall rows cs r,
   nodup_N (map p_field rows) = true ->
   In r rows -> find_crow cs (p_flag r) = None ->
-  exists o, representable rows o = true /\ parse rows cs (print rows o) = None.
+  exists o, representable rows cs o = true /\ parse rows cs (print rows o) = None.
 Proof. exact Proofs.missing_flag_breaks. Qed.
 Print Assumptions missing_flag_breaks.
 
